@@ -94,3 +94,18 @@ Proof.
   intros H o d f. simpl in H.
   repeat (destruct H as [<-|H]; [unfold dispatch; destruct (o && negb d && negb f); simpl; discriminate|]). contradiction.
 Qed.
+
+(* ---- iwamoto multiplier *)
+From Coq Require Import QArith.
+(* for a genuine cubic the repaired code uses the same root as before (index 2) *)
+Theorem iwamoto_pick_cubic g3 g2 g1 g0 : ~ (g3 == 0)%Q -> iwamoto_pick g3 g2 g1 g0 = Some 2%nat.
+Proof.
+  intros H. unfold iwamoto_pick, n_roots. simpl.
+  destruct (Qeq_bool g3 0) eqn:E; [apply Qeq_bool_iff in E; contradiction|reflexivity].
+Qed.
+(* and it always names an existing root (or the constant 1): no IndexError for any coefficients *)
+Theorem iwamoto_pick_in_range g3 g2 g1 g0 k : iwamoto_pick g3 g2 g1 g0 = Some k -> (k < n_roots [g3; g2; g1; g0])%nat.
+Proof. unfold iwamoto_pick. destruct (n_roots [g3; g2; g1; g0]); intros H; inversion H; subst. apply Nat.lt_succ_diag_r. Qed.
+(* regression witness: before the repair index 2 did not exist without a second-order term (no PQ bus): IndexError *)
+Theorem iwamoto_index_old_refuted : exists g1 g0, ~ (g1 == 0)%Q /\ iwamoto_index_ok_old 0 0 g1 g0 = false.
+Proof. exists 1%Q, (-1)%Q. split; [discriminate|reflexivity]. Qed.
